@@ -87,7 +87,7 @@ func RunSelftest(c *Ctx) error {
 		}
 		for _, drv := range drvs.List {
 			rr := prng.Sub(c.Seed, "selftest/"+drv.Grammar.ID, 0)
-			pool := newPool(drv.Grammar, rr, drv.HasLexer)
+			pool := newPool(drv.Grammar, rr, drv.HasLexer, false)
 			var jobs []harness.Job
 			for k := 0; k < 10; k++ {
 				if race {
